@@ -4,7 +4,7 @@
 set -e
 cd "$(dirname "$0")"
 mkdir -p work/bin evidence replays
-./lib/coqproject.sh && ( cd coq && flock .lock timeout 3000 make -j16 )
+./lib/coqproject.sh && ( cd coq && flock .lock timeout 3000 make -j16 $(python3 ../lib/setup_targets.py) )
 export GOFLAGS=-mod=mod GOPROXY=off GOSUMDB=off GOTOOLCHAIN=local CGO_ENABLED=0
 ( cd harness && cp /repo/go.sum go.sum && go build -tags verif -o ../work/bin/impl_driver . )  # warms the Go build cache; checks rebuild per property
 echo setup done
